@@ -276,6 +276,12 @@ const TB_SAMPLES: &[TbSample] = &[
                quadratic_ok: &["out"], const_conds: &[] },
     TbSample { name: "intermediate-signal-product", src: "template T() {\n signal input a; signal output out; signal s;\n s <== a * a;\n out <-- s * s * s;\n}\n",
                quadratic_ok: &[], const_conds: &[] },
+    TbSample { name: "array-shuffled-in-loop", src: "template T() {\n signal input in[2]; signal output out[2];\n var acc[2] = [in[1], in[0] * in[1] * in[0]];\n for (var i = 0; i < 2; i++) { acc[i] = 1; out[i] <-- acc[1 - i]; }\n out[0] * out[1] === in[0];\n}\n",
+               quadratic_ok: &[], const_conds: &[] },
+    TbSample { name: "array-slot-overwritten-in-loop-other-read-after", src: "template T(n) {\n signal input in[2]; signal output out;\n var acc[2] = [in[0], in[0] * in[0] * in[1]];\n for (var i = 0; i < n; i++) { acc[0] = 1; }\n out <-- acc[1];\n}\n",
+               quadratic_ok: &[], const_conds: &[] },
+    TbSample { name: "array-constant-slots-in-loop", src: "template T(n) {\n signal input in; signal output out;\n var acc[2] = [1, 2];\n for (var i = 0; i < n; i++) { acc[1] = acc[0] + 1; }\n out <-- acc[1] * in;\n}\n",
+               quadratic_ok: &["out"], const_conds: &[] },
     TbSample { name: "constant-overwritten-in-loop", src: "template T(n) {\n signal input in; signal output out;\n var c = 5;\n for (var i = 0; i < n; i++) { c = c * 2; }\n var r = 0;\n if (c == 5) { r = 1; }\n out <== in * r;\n}\n",
                quadratic_ok: &[], const_conds: &[] },
 ];
